@@ -13,22 +13,22 @@ NOT_APPLICABLE = {
 # clauses added while building (DESIGN.md sections 10 and 12); appended to the module's own statement of what is decided
 ALSO = {
     "C01": "The contracts of the other stages the composition relies on are decided by the rules of C03 (combinators), "
-           "C05 (optimizer) and C07 (reader), which are re-run under this property (rules C01.C03-*, C01.C05-*, C01.C07-*).",
+           "C05 (optimizer) and C07 (reader), which are re-run under this property (rules C01.C03-*, C01.C05-*, C01.C07-*). Stack's snapshot protocol (C11) and the per-back-end rule nesting, entry dispatch, built-ins and skip (C02.RULE/ENTRY/BUILTINS/SKIP) are re-run as well.",
     "C02": "ENTRY also decides that the start-rule dispatch templates call the function of the rule they match and that "
            "the VM starts from the rule it is given; SKIP accepts an atomicity guard hoisted into an early return.",
     "C03": "Also decided: who may write the token queue (besides rule/sequence every write is guarded by lookahead == "
-           "None), multi-step matchers work on a scratch position, the memchr-free search scans exhaustively. A failed skip_until leaves the cursor at the end on every false-returning path; a step of s.len() bytes is licensed only by a test that the input holds a slice of that byte length; a one-byte step only by an ASCII test on input data; Stack's snapshot protocol (C11's clauses) is re-run.",
+           "None), multi-step matchers work on a scratch position, the memchr-free search scans exhaustively. A failed skip_until leaves the cursor at the end on every false-returning path; a step of s.len() bytes is licensed only by a test that the input holds a slice of that byte length; a one-byte step only by an ASCII test on input data; Stack's snapshot protocol (C11's clauses) is re-run. No matcher narrows an input character with `as u8`.",
     "C04": "Also decided: cached pair count protocol, agreement of the two line counters on what ends a line, one leaf "
            "predicate for sibling renderers, len() formulas vs step width, the serialized span of a sibling list is its "
            "window's span (pretty-print), and - re-run from C03 - the production of the token stream (RULE, REWIND, QUEUEW, SNAP). A counting len() counts over exactly the window start..end.",
     "C05": "Also decided: rule-type guards enable rewrites only where no implicit whitespace is skipped, an accumulator "
-           "threaded by value is handed on on every result path, a rewrite never ignores an operand of the shape it matches. A variant the conversion maps to a native operator (RepOnce under grammar-extras) is not desugared into a sequence.",
+           "threaded by value is handed on on every result path, a rewrite never ignores an operand of the shape it matches. A variant the conversion maps to a native operator (RepOnce under grammar-extras) is not desugared into a sequence. Every arm of the restorer hands back the operator it matched.",
     "C06": "Also decided: top-level nullability questions start from an empty trace, only keyword tests may answer before "
            "the user's rule is looked up, and - re-run from C02 - both back-ends run WHITESPACE/COMMENT bodies atomically "
            "(the validator's isolation argument depends on it). The left-recursion descent through a rule reference is suppressed by the current trace only, never by a memo that outlives the walk.",
     "C07": "Also decided: every stored literal passes the escape decoder; the meta-grammar's lexical rules (number, integer, "
            "string, character, identifier, tag) are deterministic and DFA-equivalent over all scalar values to the "
-           "documented token syntax, on grammar.pest and on the PEG decompiled from the checked-in grammar.rs.",
+           "documented token syntax, on grammar.pest and on the PEG decompiled from the checked-in grammar.rs. An explicit error return of the reader never sits under a comparison of counts other than `== 0`.",
     "C08": "Also decided: the error constructor reports the position it is given (location and line_col are projections "
            "of the same Position, never rewritten afterwards); the vector an attempt is pushed to is decided path by path. The optimizer pass that replaces rule references by their literals is enabled only inside @ rules, where rules are not reportable.",
     "C09": "Also decided: rendering (Display for Error and what it reaches in pest::error) never slices a string by a "
@@ -37,9 +37,9 @@ ALSO = {
            "optimizer recursions never evict.",
     "C10": "Also decided (comparison-shaped clauses): the line iterator of a span stops only strictly past the span's end, "
            "the gutter width of a rendered error reads both line numbers of a span location, and the marker's start "
-           "column is rewritten only under a strict start > end.",
+           "column is rewritten only under a strict start > end. The diagnostic-label arithmetic of the miette adapter never subtracts the columns of a span unguarded; the error constructors never whitespace-trim the line text; merge_spans computes each bound from both arguments.",
     "C11": "AGREE also decides which end of the popped segment the merge in clear_snapshot may cut: pop appends, so with "
-           "a parent snapshot present a suffix-only cut keeps the wrong elements.",
+           "a parent snapshot present a suffix-only cut keeps the wrong elements. The argument of truncate / split_off on the popped vector in clear_snapshot is computed from the vector's length.",
     "C12": "Also decided: the setter stores into the process-wide limit on every path with the sentinel the tracker reads "
            "as unlimited; the limit keeps its integer width from setter to comparison; the global is read only when a "
            "tracker is built. In every counting combinator the limit check precedes every write to the parser state, so a refused call hands back the caller's state.",
@@ -48,7 +48,7 @@ ALSO = {
            "ConstPrattParser (last declaration wins in both). The expansions of prec_climber! and pratt_precedence! on a witness table (compiled, never run) give |-joined operators one level, later lines higher levels, and keep associativity.",
     "C14": "Also decided: pest_meta::parser::parse is PestParser::parse on its own parameters (ENTRY); every rule function of "
            "grammar.rs decompiles to the expression an independent reader gives that rule in grammar.pest (INDEPENDENT, "
-           "breaks the circularity of regeneration); VM agreement is C02 re-run on the default configuration.",
+           "breaks the circularity of regeneration); VM agreement is C02 re-run on the default configuration. C05's optimizer clauses are re-run (the fresh derivation and the VM go through the optimizer).",
     "C15": "Also decided: every value stored in max_position is an offset read from a Position (inter-procedural "
            "provenance, never arithmetic); code that runs only with error detail on contains no explicit panic site. String slicing by byte offsets counts as a panic site there.",
     "C16": "Also decided: the front-end never consults the raw lookup tables (which hold unadvertised names); generator "
